@@ -482,3 +482,41 @@ def c16_r8(ctx):
             not any(re.search(r"\b%s\b" % re.escape(y), t) for (_, t) in fx) and not any(re.search(r"\b%s\b" % re.escape(x), t) for (_, t) in fy) and \
             ("T", x) in fx and ("T", y) in fy
     ctx.ob(f, ok, "start and end are each analysed under a test on that bound alone, with the same arguments", detail=detail)
+
+
+SCHEMA_PRIVATE = ("_dyn_fields", "_subfields")
+
+
+def _schema_private_reads(tree):
+    """attribute reads that reach into a Schema's private tables: <x>._dyn_fields, <x>._subfields, <...>schema._fields"""
+    out = []
+    for n in ast.walk(tree):
+        if isinstance(n, ast.Attribute):
+            if n.attr in SCHEMA_PRIVATE:
+                out.append(n)
+            elif n.attr == "_fields" and norm.canon(n.value).split(".")[-1].lstrip("_") in ("schema", "ixschema"):
+                out.append(n)
+    return out
+
+
+@rule("C16", "R9", "K3", "field lookup goes through the Schema interface (which knows dynamic fields), never through its private tables",
+      min_instances=1, also=("C17",),
+      clause="Outside whoosh.fields nothing reads Schema._fields / _dyn_fields / _subfields: `name in schema` and `schema[name]` also "
+             "resolve glob (dynamic) fields, the private dict of static fields does not -- a lookup through it makes the parser treat "
+             "text in a dynamic field as an unknown field (not analysed, not parsed by its field type).")
+def c16_r9(ctx):
+    prog = ctx.prog
+    # the detector must recognise the construct it exists for (expected count on the tree is zero)
+    probe = ast.parse("def f(self, n):\n    return self.schema._fields.get(n) or parser.schema._dyn_fields\n")
+    if len(_schema_private_reads(probe)) != 2:
+        raise AnalysisError("C16-R9 detector does not match its own positive example")
+    nmod = 0
+    for m in prog.modules.values():
+        if m.name == "whoosh.fields":
+            continue
+        nmod += 1
+        hits = _schema_private_reads(m.tree)
+        ctx.ob(m.name, not hits, "does not read a Schema's private field tables",
+               detail="; ".join("%s at line %d" % (norm.canon(h), h.lineno) for h in hits[:4]), loc=m.relpath)
+    if nmod < 100:
+        raise AnalysisError("only %d modules scanned" % nmod)
